@@ -370,11 +370,14 @@ class WritableStream(io.RawIOBase):
                 command |= SIZE_SPECIFIED
                 struct.pack_into("<L", request, 4, size)
             SDO_STRUCT.pack_into(request, 0, command, index, subindex)
+            # No closing segment must be sent by close() if the initiation fails
+            self._done = True
             response = sdo_client.request_response(request)
             res_command, = struct.unpack_from("B", response)
             if res_command != RESPONSE_DOWNLOAD:
                 raise SdoCommunicationError(
                     f"Unexpected response 0x{res_command:02X}")
+            self._done = False
         else:
             # Expedited download
             # Prepare header (first 4 bytes in CAN message)
@@ -424,7 +427,12 @@ class WritableStream(io.RawIOBase):
             command |= (7 - bytes_sent) << 1
             request[0] = command
             request[1:bytes_sent + 1] = b[0:bytes_sent]
-            response = self.sdo_client.request_response(request)
+            try:
+                response = self.sdo_client.request_response(request)
+            except SdoError:
+                # The transfer is over, close() must not send a closing segment
+                self._done = True
+                raise
             res_command, = struct.unpack("B", response[0:1])
             if res_command & 0xE0 != RESPONSE_SEGMENT_DOWNLOAD:
                 raise SdoCommunicationError(
